@@ -505,7 +505,11 @@ def gen_case(rng, tier, k):
             # this interpreter is handed an environment that belongs to
             # the other one
             owner_scope = envs[env]
-            names_there = sorted(owner_scope.names())
+            # (only the session's own data/function names: natives such
+            # as file_info also exist in a legacy base environment, where
+            # reading them is no leak)
+            names_there = sorted(x for x in owner_scope.names()
+                                 if x.startswith(("i_", "l_", "s_", "f_")))
             what = ["expr", ["v", rng.choice(names_there)]] \
                 if names_there and rng.random() < 0.7 else \
                 rng.choice([["mark", g.fresh("fe")], ["def", "i_a", 1],
